@@ -70,7 +70,8 @@ BOUNDARY_CMDS = ["CMD FAKE_DROP 3 0", "CMD FAKE_DROP 0 0", "CMD FAKE_DROP 2 -1",
                  "CMD FAKE_TOA 10 -1", "CMD FAKE_TOA 10 0", "CMD FAKE_TOA -99999 99999", "CMD FAKE_CI 10 -1", "CMD FAKE_CI 99999 0", "CMD FAKE_RSSI -200 0", "CMD FAKE_RSSI -60 -1",
                  "CMD SETTA 64", "CMD SETTA -1", "CMD SETTA 0", "CMD SETPOWER -5", "CMD SETPOWER 1000", "CMD RFMUTE 2", "CMD RFMUTE -1", "CMD SETFORMAT 15", "CMD SETFORMAT 16",
                  "CMD SETFH 64 0 935000 890000", "CMD SETFH 0 64 935000 890000", "CMD SETFH 0 0 935000 890000", "CMD SETFH 1 1 0 0", "CMD SETFH 63 63 -1 -1 935000 890000",
-                 "CMD RXTUNE 0", "CMD TXTUNE -1", "CMD RXTUNE 99999999999", "CMD MEASURE -1", "CMD MEASURE 0", "CMD NOMTXPOWER", "CMD FAKE_TRXC_DELAY -1", "CMD FAKE_TRXC_DELAY 0"]
+                 "CMD RXTUNE 0", "CMD TXTUNE -1", "CMD RXTUNE 99999999999", "CMD MEASURE -1", "CMD MEASURE 0", "CMD NOMTXPOWER", "CMD FAKE_TRXC_DELAY -1", "CMD FAKE_TRXC_DELAY 0",
+                 "CMD FAKE_TRXC_DELAY 9223372036855", "CMD FAKE_TRXC_DELAY 1" + "0" * 400, "CMD SETPOWER 1" + "0" * 400, "CMD FAKE_TOA 1" + "0" * 400 + " 0", "CMD SETTA 1" + "0" * 30]
 
 
 def boundary_script(rng):
